@@ -249,6 +249,9 @@ func hostFmtArg(fr *frame, v value) (interface{}, *spiece) {
 				u, _ := hostPlain(fr, it.t, it.v)
 				return fmtWrap{ss, u}, nil
 			}
+			if ss, ok := s.(symstr); ok {
+				return nil, &spiece{k: pkSplice, sub: ss.p}
+			}
 			return nil, &spiece{k: pkOpaque, s: "error-text"}
 		}
 		if hasMethod(fr, it.t, "String") {
@@ -256,6 +259,9 @@ func hostFmtArg(fr *frame, v value) (interface{}, *spiece) {
 			if ss, ok := s.(string); ok {
 				u, _ := hostPlain(fr, it.t, it.v)
 				return fmtWrap{ss, u}, nil
+			}
+			if ss, ok := s.(symstr); ok {
+				return nil, &spiece{k: pkSplice, sub: ss.p} // text produced by the value's own String method (%s / %v)
 			}
 		}
 	}
